@@ -466,7 +466,45 @@ def getters(ctx, radio, nrf, g):
         ctx.check(bytes_eq(nrf.address(p), [r[0x0A + p]] + g.a[0x0B][1:]), "getter address(2..5)")
 
 
-def h_history(ctx, calls, pre):
+class FixedArgs:
+    """argument source for the steps of a deep history that are NOT symbolic: the same generators, but every request for a
+    symbolic value is answered with a concrete one drawn (boundary-biased, reproducibly from the tag) out of the same domain"""
+    SPECIAL = (0, 1, 2, 3, 5, 6, 15, 16, 31, 32, 33, 76, 125, 126, 250, 251, 499, 500, 750, 3999, 4000, 4001, 255, 256, -1, -6, -12, -18)
+
+    def __init__(self, ctx, seed):
+        self.ctx, self.seed = ctx, seed
+
+    def _rng(self, name):
+        import random
+        return random.Random("%s/%s" % (self.seed, name))
+
+    def int(self, name, lo, hi):
+        r = self._rng(name)
+        k = r.random()
+        if k < 0.4:
+            c = [v for v in self.SPECIAL if lo <= v <= hi] + [lo, hi]
+            return r.choice(c)
+        if k < 0.8:
+            return r.randint(max(lo, -4), max(max(lo, -4), min(hi, 40)))
+        return r.randint(lo, hi)
+
+    def bytes(self, name, n, mutable=False):
+        r = self._rng(name)
+        v = [r.choice((0, 1, 0xE7, 0xC2, 0xFF, r.randint(0, 255))) for _ in range(n)]
+        return bytearray(v) if mutable else bytes(v)
+
+    def choice(self, name, n):
+        return self._rng(name).randrange(n)
+
+    def bool(self, name):
+        return self._rng(name).random() < 0.5
+
+    def __getattr__(self, a):
+        return getattr(self.ctx, a)
+
+
+def h_history(ctx, calls, pre, sym_at=None, seed=0):
+    fixed = FixedArgs(ctx, seed)
     clock = fresh_env(ctx)
     radio = SimRadio(clock)
     if pre == "sym":
@@ -476,7 +514,7 @@ def h_history(ctx, calls, pre):
     g = Ghost(radio)
     for step, name in enumerate(calls):
         gen, do, spec = CALLS[name] if name != "crc_negative" else NEG_CRC[1]
-        args = gen(ctx, "%s%d" % (name, step))
+        args = gen(ctx if sym_at is None or step in sym_at else fixed, "%s%d" % (name, step))
         before = Ghost(radio)
         before.copy_from(g)
         mark = len(radio.log)
@@ -567,6 +605,22 @@ def jobs(tier):
     for s in seqs:
         out.append(Job("history", h_history, dict(calls=list(s), pre="por"), cost=len(s) ** 2, max_paths=(20000 if tier == "quick" else 40000),
                        shards=(1 if len(s) < 5 else 4 if tier == "quick" else 8)))
+    # deep histories (the statement's "random to depth ~40"): 40 calls drawn at random from the whole alphabet; the arguments of
+    # `k` of them stay symbolic (the solver decides over all their values in that context), the others are drawn from the same
+    # domains, boundary-biased; the ghost, the legality of every write, the rejections, cache = radio and the getters as always
+    seed0 = int(os.environ.get("VERIF_SEED", "0") or 0)
+    for i in range(48 if tier == "quick" else 600):
+        depth, k = (40, 3) if tier == "quick" else (40, 4)
+        while True:
+            cand = [rng.choice(names) for _ in range(depth)]
+            at = sorted(rng.sample(range(depth), k))
+            prod = 1
+            for j in at:
+                prod *= weight(cand[j])
+            if prod <= 1500 and not any("list" in cand[j] for j in at):
+                break
+        out.append(Job("deep-history", h_history, dict(calls=cand, pre="por", sym_at=at, seed=seed0 * 1000 + i), cost=60,
+                       max_paths=20000))
     for n in names:
         out.append(Job("history-symbolic-prestate", h_history, dict(calls=[n], pre="sym"), cost=2))
     return out
@@ -576,10 +630,10 @@ META = {
     "bounds": {
         "quick": "every call of the 49-call alphabet alone (from the power-on-reset radio and from a radio with arbitrary "
                  "symbolic register contents before RF24() is constructed), every ordered pair of calls that share a register "
-                 "(6 groups), 6 triples and 24 random histories of depth 5 (drawn with VERIF_SEED; arguments symbolic); integer arguments symbolic over [-65536, 65536] (narrower where the domain is "
+                 "(6 groups), 6 triples, 24 random histories of depth 5 (drawn with VERIF_SEED; arguments symbolic) and 48 deep histories of depth 40 (calls drawn from the whole alphabet; the arguments of 3 of the 40 calls symbolic, the others drawn boundary-biased from the same domains); integer arguments symbolic over [-65536, 65536] (narrower where the domain is "
                  "tiny: data_rate -3..252, pa_level -40..20, pipe numbers -3..8, payload lengths -300..300), 5/3/1/0-byte "
                  "symbolic addresses, list forms with 2-3 symbolic elements and lengths 0, 3, 7; bools enumerated",
-        "thorough": "all 49x49 ordered pairs, all triples inside the PIPES, FEATURE and CONFIG groups, 200 random histories of depth 6",
+        "thorough": "all 49x49 ordered pairs, all triples inside the PIPES, FEATURE and CONFIG groups, 200 random histories of depth 6, 600 deep histories of depth 40 with 4 symbolic calls each",
     },
     "outside": ["nRF24L01 non-plus branch of start_carrier_wave() (documented to overwrite registers behind the cache)",
                 "histories deeper than 3 calls", "integer arguments beyond +-65536", "print_details()/print_pipes()",
